@@ -2,7 +2,8 @@
 Leg D: spec/Input/ConnLife.tla (property layer: AtMostOnce, Contained, Answered, ProbeOK as action guards) and
        ConnLifeImpl.tla (token-level models of the three front-ends' error paths refining it).
 Leg B: harness/input/input_drv.cpp (mode c02): grammar mutations, truncation / reset at every offset, lying
-       length fields, random bytes and random record sequences on every front-end; every case is followed by a
+       length fields, random bytes and random record sequences on every front-end, batches of connections that become
+       ready / are reset, half-closed or closed while the loop thread is held busy; every case is followed by a
        well-formed probe; the driver is restarted behind a case that kills the service.  ConnLifeTrace.tla
        judges every case (one TLC run per front-end, every case an initial state).
 """
@@ -175,6 +176,9 @@ def classify(x, flavour):
     cls, idx, label = conn["cls"], conn["idx"], conn["label"]
     died = [e for e in evs if e.get("e") == "Died"]
     what = "bytes=%s" % (bytes(conn["bytes"][:120]) if conn.get("hasbytes") else "<%d bytes>" % conn["len"])
+    if conn.get("batch"):
+        what = ("batch of %d connections made ready while the loop thread was held busy (mode %d: 1 ended before the poll, 2 ended between "
+                "the poll and the read handlers, 3 ended by a racing thread); connection 0 = complete request, then RST" % (conn.get("members", 0), conn["batch"]))
     if died:
         why = died[0].get("why", "")
         kind = "kills-loop" if "service::run" in why else ("sanitizer" if flavour == "asan" else "crash")
